@@ -26,7 +26,7 @@ open Glm.Hand.C14 Glm.Props.C14.Bridge
 theorem equalUlpsVec32_bv (x y k : UInt32) :
     glmEqualUlpsVec32 x y k =
       (absDiff64 (toTwos32 x).toBitVec (toTwos32 y).toBitVec).sle (k.toBitVec.signExtend 64) := by
-  unfold glmEqualUlpsVec32 absI32 ftNegative32 absDiff64 toTwos32 sign32 mag32; bv_decide
+  unfold glmEqualUlpsVec32 absI32 ftNegative32 absDiff64 toTwos32 sign32 mag32; bv_decide (config := { timeout := 180 })
 
 /-- C14: `equal(x, y, MaxULPs)` is true exactly when x and y are at most MaxULPs representable values
 apart, +0 and −0 being the same value -/
@@ -59,7 +59,7 @@ theorem notEqualUlpsCol32_eq_not (col : List (UInt32 × UInt32)) (k : UInt32) :
 
 theorem equalUlps32_same_sign (x y k : UInt32) (h : sign32 x = sign32 y) :
     glmEqualUlps32 x y k = glmEqualUlpsVec32 x y k := by
-  unfold glmEqualUlps32 glmEqualUlpsVec32 ftNegative32 sign32 at *; bv_decide
+  unfold glmEqualUlps32 glmEqualUlpsVec32 ftNegative32 sign32 at *; bv_decide (config := { timeout := 180 })
 /-- what does hold: equal sign bits ⇒ the scalar overload meets the specification -/
 theorem equalUlps32_partial (x y k : UInt32) (h : sign32 x = sign32 y) :
     glmEqualUlps32 x y k = equalUlpsSpec32 x y k.toBitVec.toInt := by
@@ -67,7 +67,7 @@ theorem equalUlps32_partial (x y k : UInt32) (h : sign32 x = sign32 y) :
 /-- different sign bits ⇒ `false`, whatever the distance -/
 theorem equalUlps32_diff_sign (x y k : UInt32) (h : (sign32 x == sign32 y) = false) :
     glmEqualUlps32 x y k = false := by
-  unfold glmEqualUlps32 ftNegative32 sign32 at *; bv_decide
+  unfold glmEqualUlps32 ftNegative32 sign32 at *; bv_decide (config := { timeout := 180 })
 /-- the full statement is refuted: `equal(+0, -0, 0) = false` although they are the same value … -/
 theorem equalUlps32_refuted :
     ¬ ∀ (x y k : UInt32), isNaN32 x = false → isNaN32 y = false →
@@ -87,7 +87,7 @@ theorem equalUlps32_scalar_vs_vector_refuted :
 
 theorem preFixEqualUlpsVec32_partial (x y k : UInt32) (h : sign32 x = sign32 y) :
     preFixEqualUlpsVec32 x y k = glmEqualUlpsVec32 x y k := by
-  unfold preFixEqualUlpsVec32 glmEqualUlpsVec32 ftNegative32 sign32 at *; bv_decide
+  unfold preFixEqualUlpsVec32 glmEqualUlpsVec32 ftNegative32 sign32 at *; bv_decide (config := { timeout := 180 })
 /-- `equal(vec(1), vec(-1), 0)` was `true` -/
 theorem preFixEqualUlpsVec32_refuted :
     ¬ ∀ (x y k : UInt32), preFixEqualUlpsVec32 x y k = equalUlpsSpec32 x y k.toBitVec.toInt := by
@@ -106,7 +106,7 @@ example : glmEqualUlpsCol32 [(0x3F800000, 0x3F800001), (0x80000000, 0)] 1 = true
 theorem equalUlpsVec64_bv (x y : UInt64) (k : UInt32) :
     glmEqualUlpsVec64 x y k =
       (absDiff128 (toTwos64 x).toBitVec (toTwos64 y).toBitVec).sle (k.toBitVec.signExtend 128) := by
-  unfold glmEqualUlpsVec64 absI64 ftNegative64 absDiff128 toTwos64 sign64 mag64; bv_decide
+  unfold glmEqualUlpsVec64 absI64 ftNegative64 absDiff128 toTwos64 sign64 mag64; bv_decide (config := { timeout := 180 })
 
 /-- C14: `equal(x, y, MaxULPs)` is true exactly when x and y are at most MaxULPs representable values
 apart, +0 and −0 being the same value -/
@@ -139,7 +139,7 @@ theorem notEqualUlpsCol64_eq_not (col : List (UInt64 × UInt64)) (k : UInt32) :
 
 theorem equalUlps64_same_sign (x y : UInt64) (k : UInt32) (h : sign64 x = sign64 y) :
     glmEqualUlps64 x y k = glmEqualUlpsVec64 x y k := by
-  unfold glmEqualUlps64 glmEqualUlpsVec64 ftNegative64 sign64 at *; bv_decide
+  unfold glmEqualUlps64 glmEqualUlpsVec64 ftNegative64 sign64 at *; bv_decide (config := { timeout := 180 })
 /-- what does hold: equal sign bits ⇒ the scalar overload meets the specification -/
 theorem equalUlps64_partial (x y : UInt64) (k : UInt32) (h : sign64 x = sign64 y) :
     glmEqualUlps64 x y k = equalUlpsSpec64 x y k.toBitVec.toInt := by
@@ -147,7 +147,7 @@ theorem equalUlps64_partial (x y : UInt64) (k : UInt32) (h : sign64 x = sign64 y
 /-- different sign bits ⇒ `false`, whatever the distance -/
 theorem equalUlps64_diff_sign (x y : UInt64) (k : UInt32) (h : (sign64 x == sign64 y) = false) :
     glmEqualUlps64 x y k = false := by
-  unfold glmEqualUlps64 ftNegative64 sign64 at *; bv_decide
+  unfold glmEqualUlps64 ftNegative64 sign64 at *; bv_decide (config := { timeout := 180 })
 /-- the full statement is refuted: `equal(+0, -0, 0) = false` although they are the same value … -/
 theorem equalUlps64_refuted :
     ¬ ∀ (x y : UInt64) (k : UInt32), isNaN64 x = false → isNaN64 y = false →
@@ -167,7 +167,7 @@ theorem equalUlps64_scalar_vs_vector_refuted :
 
 theorem preFixEqualUlpsVec64_partial (x y : UInt64) (k : UInt32) (h : sign64 x = sign64 y) :
     preFixEqualUlpsVec64 x y k = glmEqualUlpsVec64 x y k := by
-  unfold preFixEqualUlpsVec64 glmEqualUlpsVec64 ftNegative64 sign64 at *; bv_decide
+  unfold preFixEqualUlpsVec64 glmEqualUlpsVec64 ftNegative64 sign64 at *; bv_decide (config := { timeout := 180 })
 /-- `equal(vec(1), vec(-1), 0)` was `true` -/
 theorem preFixEqualUlpsVec64_refuted :
     ¬ ∀ (x y : UInt64) (k : UInt32), preFixEqualUlpsVec64 x y k = equalUlpsSpec64 x y k.toBitVec.toInt := by
